@@ -417,6 +417,78 @@ func runC06(res *Result, tier string, seed int64, replay string) {
 			res.Sample(map[string]string{"kind": "hostile-value", "tag": c.tag, "attr": c.attr, "value": short(c.val, 30)})
 		}
 	})
+	// hostile values × the shape of the element's children: a container with no children at all, with raw content only, and
+	// with many children (divisions by a child count, "first / last child" indexing, width shares)
+	{
+		type shape struct {
+			name string
+			kids func(tag string) string
+		}
+		manyOf := map[string]string{
+			"mj-section": `<mj-column><mj-text>T</mj-text></mj-column>`, "mj-group": `<mj-column><mj-text>T</mj-text></mj-column>`,
+			"mj-wrapper": `<mj-section><mj-column><mj-text>T</mj-text></mj-column></mj-section>`, "mj-column": `<mj-text>T</mj-text>`, "mj-hero": `<mj-text>T</mj-text>`,
+			"mj-navbar": `<mj-navbar-link href="/a">A</mj-navbar-link>`, "mj-social": `<mj-social-element name="facebook" href="h">F</mj-social-element>`,
+			"mj-accordion": `<mj-accordion-element><mj-accordion-title>Q</mj-accordion-title><mj-accordion-text>A</mj-accordion-text></mj-accordion-element>`,
+			"mj-carousel":  `<mj-carousel-image src="a.png"/>`, "mj-accordion-element": `<mj-accordion-title>Q</mj-accordion-title>`,
+		}
+		shapes := []shape{
+			{"empty", func(string) string { return "" }},
+			{"raw-only", func(string) string { return `<mj-raw><i>r</i></mj-raw>` }},
+			{"five", func(tag string) string { return strings.Repeat(manyOf[tag], 5) }},
+		}
+		var containers []string
+		for t := range manyOf {
+			containers = append(containers, t)
+		}
+		sort.Strings(containers)
+		type scase struct {
+			tag, attr, val string
+			sh             shape
+		}
+		var sc []scase
+		for _, tag := range containers {
+			for _, a := range allowedSorted(tag) {
+				for vi, v := range hostileValues {
+					for si, sh := range shapes {
+						if tier != "thorough" && (vi+si+len(a[0]))%3 != int(seed%3) {
+							continue
+						}
+						sc = append(sc, scase{tag, a[0], v, sh})
+					}
+				}
+			}
+		}
+		parallel(16, len(sc), func(i int) {
+			c := sc[i]
+			doc := parseNodeTree(legalContext(c.tag, "", ""))
+			if doc == nil {
+				return
+			}
+			var t *Node
+			doc.Walk(func(x *Node) {
+				if t == nil && x.Tag == c.tag {
+					t = x
+				}
+			})
+			if t == nil {
+				return
+			}
+			t.Set(c.attr, c.val)
+			src := doc.MJML()
+			// replace the element's children textually: the printed element is unique in the document
+			open := strings.Index(src, "<"+c.tag+" ")
+			if open < 0 {
+				return
+			}
+			gt := strings.Index(src[open:], ">") + open
+			end := strings.LastIndex(src, "</"+c.tag+">")
+			if gt < open || end < gt {
+				return
+			}
+			src = src[:gt+1] + c.sh.kids(c.tag) + src[end:]
+			run("hostile-shape", c.tag+"/"+c.sh.name+"/"+c.attr+"="+short(c.val, 12), src, true)
+		})
+	}
 	// the same values as mj-attributes defaults and mj-all
 	parallel(16, len(bodyTags)*len(hostileValues), func(i int) {
 		tag, v := bodyTags[i/len(hostileValues)], hostileValues[i%len(hostileValues)]
